@@ -263,7 +263,7 @@ def ladder_check(ctx, rule, modname, mode):
     interp = TP.Interp(m, modname, mode)
     lad = TP.ladder(fn)
     ctx.count('ladder branches (%s)' % modname, len(lad))
-    ctx.floor('ladder branches (%s)' % modname, len(lad), 19)
+    ctx.floor('ladder branches (%s)' % modname, len(lad), 17)
     # which branch is the "own" branch of a kind: the first branch whose test mentions the most specific class
     own_test = {
         'None': ['%s is None'], 'NA': ['%s is NA'], 'MARKER': ['%s is MARKER'], 'REMOVE': ['%s is REMOVE'],
@@ -552,3 +552,85 @@ def real_tie(kind_of_or, alts, want, rx_a, rx_b, n=5):
         if want not in alts[idx]['kinds'] and not (want == 'Grid' and any(k.startswith('forward:hs_grid') for k in alts[idx]['kinds'])):
             return w, len(words), alts[idx]
     return None, len(words), None
+
+
+# ------------------------------------------------------------------ version threading
+
+def version_threading(ctx, rule, modname):
+    """Every call of a version-sensitive dump function passes the version of its context.
+
+    A function is version-sensitive if it has a `version` parameter and tests it (a gate, the Remove
+    spelling) or hands it to a sensitive function.  A call that omits the argument silently encodes with the
+    default (latest) version: a 2.0 grid would get 3.0 spellings / lose its refusals in that position."""
+    m = ctx.model
+    F = 'hszinc/%s.py' % modname
+    mod = m.mod(modname)
+    fns = {n.name: n for n in mod.tree.body if isinstance(n, ast.FunctionDef)}
+    has_ver = {k for k, f in fns.items() if 'version' in [a.arg for a in f.args.args]}
+
+    def uses_version(f):
+        for n in ast.walk(f):
+            if isinstance(n, ast.Compare) and 'version' in norm(n):
+                return True
+        return False
+
+    sensitive = {k for k in has_ver if uses_version(fns[k])}
+    changed = True
+    while changed:
+        changed = False
+        for k in has_ver - sensitive:
+            for n in ast.walk(fns[k]):
+                callee = _callee_name(n)
+                if callee in sensitive:
+                    sensitive.add(k)
+                    changed = True
+                    break
+    ctx.count('version-sensitive functions (%s)' % modname, len(sensitive))
+    n_calls = 0
+    for k, f in fns.items():
+        in_scope = 'version' in [a.arg for a in f.args.args]
+        gridp = [a.arg for a in f.args.args if a.arg == 'grid']
+        for n in ast.walk(f):
+            callee = _callee_name(n)
+            if callee not in sensitive:
+                continue
+            n_calls += 1
+            kw = {x.arg: norm(x.value) for x in n.keywords} if isinstance(n, ast.Call) else {}
+            call = n
+            if isinstance(n, ast.Call) and norm(n.func) == 'functools.partial':
+                kw = {x.arg: norm(x.value) for x in n.keywords}
+            pos = [a.arg for a in fns[callee].args.args]
+            vidx = pos.index('version')
+            nargs = len(call.args) - (1 if norm(call.func) == 'functools.partial' else 0)
+            passed = kw.get('version')
+            if passed is None and nargs > vidx:
+                passed = norm(call.args[vidx + (1 if norm(call.func) == 'functools.partial' else 0)])
+            ok_values = {'version'} if in_scope else set()
+            for g in gridp:
+                ok_values |= {'%s.version' % g, '%s._version' % g}
+            if passed in ok_values or (passed and passed.endswith(('.version', '._version'))):
+                ctx.ob(rule, '%s -> %s passes the version on (%s)' % (k, callee, passed), True, '%s:%d' % (F, n.lineno))
+            elif passed is None:
+                ctx.violation(rule, '%s::%s' % (F, k), norm(call)[:160],
+                              'a version-2.0 grid with Remove (or NA, a list...) in the position written by `%s`: it is '
+                              'encoded with the default (latest) version -- Remove comes out as the 3.0 spelling and 3.0-only '
+                              'kinds are not refused there, although the rest of the document is 2.0' % callee,
+                              '%s calls the version-sensitive %s without passing the version' % (k, callee), file=F,
+                              line=n.lineno, engine='E7')
+            else:
+                ctx.violation(rule, '%s::%s' % (F, k), norm(call)[:160],
+                              'the position written by `%s` is encoded for version %s, not for the version of the grid being '
+                              'dumped' % (callee, passed),
+                              '%s passes version=%s to %s' % (k, passed, callee), file=F, line=n.lineno, engine='E7')
+    ctx.count('calls of version-sensitive functions (%s)' % modname, n_calls)
+    ctx.floor('calls of version-sensitive functions (%s)' % modname, n_calls, 8)
+
+
+def _callee_name(n):
+    if not isinstance(n, ast.Call):
+        return None
+    if isinstance(n.func, ast.Name):
+        return n.func.id
+    if norm(n.func) == 'functools.partial' and n.args and isinstance(n.args[0], ast.Name):
+        return n.args[0].id
+    return None
